@@ -393,6 +393,64 @@ def replay_known(ctx):
             ctx.known.append("id=%s case=%s failure=%s what=%s" % (k["id"], c.split("\t")[3], sig["failure"], k["what"][:140]))
 
 
+def response_side(ctx):
+    """the response twin (htp_connp_RES_BODY_DETERMINE), outside the theorems: correspondence library vs model, and on the library's dump: a 200
+    answer to GET without Transfer-Encoding that carries more than one Content-Length field is marked (HTP_REQUEST_SMUGGLING), whatever the values
+    (equal, different, zero first), their spelling, the field order and the segmentation"""
+    rng = ctx.rng
+    rq = b"GET /x HTTP/1.1\r\nHost: a\r\n\r\n"
+    cases, expect = [], []
+    vals = [b"0", b"12", b"5", b"000", b"012", b"7"]
+    for _ in range(400 if ctx.thorough() else 120):
+        n = rng.choice([1, 2, 2, 2, 3])
+        cls = [rng.choice(vals) for _k in range(n)]
+        if rng.random() < 0.3:
+            cls[0] = b"0"
+        fields = [(rng.choice([b"Content-Length", b"content-length", b"CONTENT-LENGTH", b"Content-length"]), rng.choice([b"", b" ", b"\t", b"  "]) + v + rng.choice([b"", b" ", b"\t"])) for v in cls]
+        others = [(b"Server", b"s"), (b"X-A", b"1"), (b"Date", b"now")]
+        rng.shuffle(others)
+        allf = others[:rng.randint(0, 3)]
+        for f in fields:
+            allf.insert(rng.randint(0, len(allf)), f)
+        # keep the relative order of the Content-Length fields as generated
+        k = 0
+        ordered = []
+        for nme, v in allf:
+            if nme.lower() == b"content-length":
+                ordered.append(fields[k]); k += 1
+            else:
+                ordered.append((nme, v))
+        try:
+            first = int(cls[0])
+        except ValueError:
+            first = 0
+        body = b"B" * first
+        rs = b"HTTP/1.1 200 OK\r\n" + b"".join(a + b":" + b + rng.choice([b"\r\n", b"\n"]) for a, b in ordered) + b"\r\n" + body
+        mode = rng.choice(["whole", "random", "bytes"])
+        ops = ["O", "Q" + rq.hex()] + ["S" + x.hex() for x in sconnp.cut(rs, sconnp.split_points(rs, rng, mode))] + ["C"]
+        cases.append(sconnp.case(ops, cfg="p=%d" % rng.choice([0, 1, 2, 5, 9])))
+        expect.append(n > 1)
+    before = ctx.cov["evaluations"]
+    impl, model, crash = vf.correspond(ctx, "S-connp-response", cases)
+    if crash:
+        vf.report_crash(ctx, "S-connp-response", cases, crash)
+        return
+    nbad = 0
+    for i, (c, o, want) in enumerate(zip(cases, impl, expect)):
+        d = (sconnp.tx_dumps(o) or [""])[0]
+        fl = sconnp.field(d, "fl")
+        got = bool(int(fl, 16) & FLAG_BITS["SMUGGLING"]) if fl else None
+        if got != want:
+            nbad += 1
+            if nbad <= 2:
+                vf.violation(ctx, "response-%d" % i, {"kind": "response-with-several-content-length-fields-not-marked" if want else "response-marked-without-trigger", "suite": "S-connp", "case": c,
+                                                     "expected_smuggling_flag": want, "flags": fl, "implementation_tx": d[:1500]})
+    mm = vf.first_mismatches(impl, model, limit=5)
+    ctx.cov["suites"]["S-connp-response"].update({"mismatches": len(mm), "oracle_failures": nbad})
+    if mm and not nbad:
+        vf.violation(ctx, "response-corr-%d" % mm[0], {"kind": "correspondence-broken", "suite": "S-connp", "case": cases[mm[0]], "implementation": impl[mm[0]][-2500:], "model": model[mm[0]][-2500:]}, no_input=True)
+
+
 def check(ctx):
     pr = vf.proof_step(ctx, "Properties_C11")
     rng = ctx.rng
@@ -446,6 +504,7 @@ def check(ctx):
                                                    "what_each_oracle_checks": {k: d for k, _, d in ORACLES if k in bad},
                                                    "oracle_on_implementation": sv, "original_case": cases[i],
                                                    "implementation_tx": (sconnp.tx_dumps(so) or ["?"])[0][:1500], "theorem": THEOREMS})
+    response_side(ctx)
     ctx.cov["oracle_evaluations_on_implementation"] = noracle
     ctx.cov["oracle_failures"] = nfail
     ctx.cov["outside_proved_domain"] = {"%s/%s" % k: c for k, c in sorted(nout.items())}
